@@ -609,6 +609,28 @@ class Unit:
                 sig = src.text[h0:rstart] + ' (r: ' + rtype + ')' + (' ' + src.text[rend:bopen] if where_pos >= 0 else ' ')
                 self.log.append({'rule': 'N8', 'where': where, 'before': '-> ' + rtype, 'after': '-> (r: %s)' % rtype})
         sig = nz.body(sig, where)
+        # N8 also for unit-returning async fns (after the unit's own renames): Verus drops the `ensures` of an awaited
+        # async fn that has no named return value, so `async fn f(..)` becomes `async fn f(..) -> (r: ())`
+        sm = rs.mask(sig)
+        if re.search(r'\basync\s+fn\b', sm) and '->' not in sm and block.get('contract', '').strip():
+            mo = re.search(r'\bfn\s+\w+', sm)
+            k = sm.index('(', mo.end())
+            if sm[mo.end():k].strip().startswith('<'):
+                # generics before the parameter list: find the '(' after the balanced <...>
+                d = 0
+                j = mo.end()
+                while j < len(sm):
+                    if sm[j] == '<':
+                        d += 1
+                    elif sm[j] == '>' and sm[j - 1] != '-':
+                        d -= 1
+                        if d == 0:
+                            break
+                    j += 1
+                k = sm.index('(', j)
+            pc2 = rs.match_close(sm, k)
+            sig = sig[:pc2 + 1] + ' -> (r: ())' + sig[pc2 + 1:]
+            self.log.append({'rule': 'N8', 'where': where, 'before': 'async fn .. (no return type)', 'after': '-> (r: ())'})
         body = src.text[bopen:it.end]
         body = nz.body(body, where)
         if nobody and (block.get('loops') or block.get('ats') or block.get('loop_ats') or block.get('havocs')):
